@@ -24,6 +24,8 @@ HOSTILE = [
     "(define + -)", "(define (car x) 'a-car)", "(set! cons list)", "(define list vector)", "(define tick-free 1)",
     "(import (no such library))", "(import (only (scheme base) car))", "(car '())", "(undefined-procedure 1)", "(vector-ref (vector) 0)", "(/ 1 0)",
     "(define (map f l) 'a-map)", "(define apply 5)", "(my-mac 1 2)", "(cond (#t 1))", "(let ((q 1)) q)",
+    # top-level VARIABLES named like the macros that B defines (and like A's own): B's define-syntax of those names is untouched
+    "(define my-mac 5)", "(define (twice! x) (list x x))", "(define (swap! a b) (list b a))", "(define twice 2)", "(define (local-mac . r) r)",
     # parameters and local variables named like the bundled keywords, in accepted and in REJECTED forms (no body, a definition after an expression, a malformed body)
     "(lambda (when) )", "(define (zk cond) (define zx 1))", "((lambda (unless) unless (define zy 2)) 1)", "(lambda (case . let) (if))", "(define (zk and or) (lambda (begin)))",
     "(let ((unless 5) (when 6)) (list unless when))", "((lambda (cond . case) (list cond case)) 1 2 3)", "(define (zk2 let*) let*)", "(zk2 4)", "(let* ((begin 1) (let begin)) )",
